@@ -1,5 +1,6 @@
 import QipVerif.Lemmas.TranspileRouteDen
 import QipVerif.Lemmas.TranspileTotal
+import QipVerif.Lemmas.TranspileSize
 /-!
 # C13 — transpilation targets the device: native gates, coupled qubits, same unitary
 
@@ -260,6 +261,158 @@ theorem transpile_den_partial (dev : Device) (N : ℕ) (ρ : ℕ → ℝ)
     (U : Matrix (St N) (St N) ℂ) (hU : denG N ρ gs = some U) : denG N ρ out = some U := by
   obtain ⟨hb, _, _, ht, _⟩ := native_valid dev
   exact transpileV_den false (routeStageDen N ρ) (by rw [hb]; rfl) ht hg hph (fun _ => h2q) h U hU
+
+/-! ## the processor's register: circuits on fewer (or more) qubits than the device
+
+`Gen.transpileOn dev M N gs` is `processor.transpile(qc).gates` for a processor with `M` qubits and a
+circuit with `qc.N = N`; `transpile dev N gs` above is the case `M = N`.  The couplings the property
+speaks about are those of the DEVICE (`HwCoupled dev M`).  The code as found routes with `qc.N`, so a
+ring device closes the ring between the first and the last qubit *of the circuit* — which are not
+coupled when the circuit is smaller than the ring — and nothing refuses a circuit that is larger than
+the device.  `fixes/C13-2.patch`: `transpile` refuses `qc.N > num_qubits`, and `CircularSpinChain`
+routes a smaller circuit on the open chain.  Both shapes of the source are modelled (`transpileD`), the
+flags are REGENERATED (`sizeGuard`, `deviceSpecSmall`) and tied to the hand-written specs by `size_tie`. -/
+
+/-- the device spec in force for a circuit on fewer qubits than the processor, after `fixes/C13-2.patch` -/
+def smallSpec : Device → DeviceSpec
+  | .circularSpinChain => ⟨(deviceSpec .circularSpinChain).native, some .linear⟩
+  | d => deviceSpec d
+
+/-- **tie to the source** (builds on both shapes of the source, fails on any other): with the size check
+the regenerated table for smaller circuits is `smallSpec`, without it it is the device's own spec -/
+theorem size_tie :
+    (sizeGuard = true → ∀ dev, deviceSpecSmall dev = smallSpec dev) ∧
+    (sizeGuard = false → ∀ dev, deviceSpecSmall dev = deviceSpec dev) := by
+  refine ⟨fun h dev => ?_, fun h dev => ?_⟩ <;>
+    first
+      | (cases dev <;> rfl)
+      | exact absurd h (by decide)
+
+/-- hence the regenerated `transpileOn` is one of the two modelled compositions -/
+theorem transpileOn_eq (dev : Device) (M N : Nat) (gs : List Gate) :
+    (sizeGuard = true → transpileOn dev M N gs =
+      transpileD tables preDecompose true (deviceSpec dev) (smallSpec dev) M N gs) ∧
+    (sizeGuard = false → transpileOn dev M N gs =
+      transpileD tables preDecompose false (deviceSpec dev) (deviceSpec dev) M N gs) := by
+  refine ⟨fun h => ?_, fun h => ?_⟩
+  · simp only [transpileOn, h, size_tie.1 h dev]
+  · simp only [transpileOn, h, size_tie.2 h dev]
+
+/-- `smallSpec` is a valid spec whose couplings, on a register smaller than the device, are couplings
+of the device -/
+theorem smallSpec_valid (dev : Device) :
+    (smallSpec dev).native = some (native dev) ∧ TopoOK (smallSpec dev) ∧
+    ∀ M N i j, N < M → i < N → j < N → coupledB (smallSpec dev).topo N i j = true → HwCoupled dev M i j := by
+  cases dev
+  · exact ⟨rfl, Or.inr (Or.inl rfl), fun M N i j _ _ _ h => by
+      simpa [smallSpec, deviceSpec, spec_LinearSpinChain, coupledB, HwCoupled] using h⟩
+  · exact ⟨rfl, Or.inr (Or.inl rfl), fun M N i j _ _ _ h => by
+      have : j = i + 1 ∨ i = j + 1 := by simpa [smallSpec, coupledB] using h
+      unfold HwCoupled; omega⟩
+  · exact ⟨rfl, Or.inr (Or.inl rfl), fun M N i j _ _ _ h => by
+      simpa [smallSpec, deviceSpec, spec_SCQubits, coupledB, HwCoupled] using h⟩
+  · exact ⟨rfl, Or.inl rfl, fun M N i j _ _ _ _ => trivial⟩
+
+/-- **transpile_coupled_device** (with `fixes/C13-2.patch`): for a processor with `M` qubits and a
+circuit of the class on `N ≤ M` qubits, any two distinct qubits of any gate of the transpiled circuit
+are coupled **by the device** (`HwCoupled dev M`). -/
+theorem transpile_coupled_device (dev : Device) (M N : Nat) (gs out : List Gate) (hg : ∀ g ∈ gs, InClass N g)
+    (h : transpileD tables preDecompose true (deviceSpec dev) (smallSpec dev) M N gs = .ok out) :
+    ∀ x ∈ out, ∀ p ∈ x.qubits, ∀ q ∈ x.qubits, p ≠ q → HwCoupled dev M p q := by
+  obtain ⟨hle, hv⟩ := transpileD_ok h
+  have hNM : N ≤ M := hle rfl
+  by_cases hlt : N < M
+  · rw [if_pos hlt, source_is_repaired] at hv
+    obtain ⟨hb, ht, hhw⟩ := smallSpec_valid dev
+    obtain ⟨g1, hcls, h2⟩ := stages_fixed (by rw [hb]; rfl) ht hg hv
+    intro x hx p hp q hq hne
+    have hc := nativeStage_coupled (fun y hy => (hcls y hy).2) h2 x hx
+    -- every qubit of an output gate is a qubit of the register of the circuit
+    have hin : ∀ r ∈ x.qubits, r < N := by
+      obtain ⟨b, hbn⟩ : ∃ b, (smallSpec dev).native = some b := ⟨_, hb⟩
+      have h2' : resolve tables true (.list b) g1 = .ok out := by
+        unfold nativeStage at h2; rw [hbn] at h2; simp only at h2
+        split at h2
+        · rename_i o ho; cases h2; exact ho
+        · cases h2
+      obtain ⟨y, hy, hst⟩ := resolve_stays tables h2' x hx
+      intro r hr
+      have hsh := (hcls y hy).1.1
+      simp only [shapedB, Bool.and_eq_true, List.all_eq_true, decide_eq_true_eq] at hsh
+      exact hsh.2 r (hst r hr)
+    exact hhw M N p q hlt (hin p hp) (hin q hq) ((coupled_iff _ N x).mp hc p hp q hq hne)
+  · have hNM' : N = M := by omega
+    subst hNM'
+    rw [if_neg hlt] at hv
+    exact transpile_coupled dev N gs out hg hv
+
+-- a three-qubit circuit on rings of 3, 4 and 5 qubits: the ISWAP on (0, 2) stays on the wrap pair of the
+-- 3-ring and is routed over qubit 1 on the larger rings
+example :
+    transpileD tables preDecompose true (deviceSpec .circularSpinChain) (smallSpec .circularSpinChain) 3 3
+      [⟨.ISWAP, [0, 2], [], {}⟩] = .ok [⟨.ISWAP, [2, 0], [], {}⟩] ∧
+    ((transpileD tables preDecompose true (deviceSpec .circularSpinChain) (smallSpec .circularSpinChain) 5 3
+      [⟨.ISWAP, [0, 2], [], {}⟩]).toOption.map
+        (fun out => decide (out.length > 5) && out.all (gateCoupledB (some .linear) 3))) = some true := by
+  refine ⟨by decide +kernel, by decide +kernel⟩
+
+/-- **a circuit on more qubits than the processor has is refused** (with `fixes/C13-2.patch`) -/
+theorem transpile_refuses_large (dev : Device) (M N : Nat) (h : M < N) (gs : List Gate) :
+    transpileD tables preDecompose true (deviceSpec dev) (smallSpec dev) M N gs = .error .size :=
+  transpileD_large _ _ _ _ h gs
+
+example : transpileD tables preDecompose true (deviceSpec .scQubits) (smallSpec .scQubits) 3 5
+    [⟨.ISWAP, [0, 4], [], {}⟩] = .error .size := transpile_refuses_large .scQubits 3 5 (by decide) _
+
+/-- **transpile_den_device**: the unitary (on the circuit's own register) is preserved whatever the
+size of the processor -/
+theorem transpile_den_device (dev : Device) (M N : ℕ) (ρ : ℕ → ℝ)
+    (gs out : List Gate) (hg : ∀ g ∈ gs, InClass N g) (hph : ∀ g ∈ gs, phOK g = true)
+    (h : transpileD tables preDecompose true (deviceSpec dev) (smallSpec dev) M N gs = .ok out)
+    (U : Matrix (St N) (St N) ℂ) (hU : denG N ρ gs = some U) : denG N ρ out = some U := by
+  obtain ⟨-, hv⟩ := transpileD_ok h
+  by_cases hlt : N < M
+  · rw [if_pos hlt] at hv
+    obtain ⟨hb, ht, -⟩ := smallSpec_valid dev
+    exact transpileV_den preDecompose (routeStageDen N ρ) (by rw [hb]; rfl) ht hg hph
+      (fun hpre => by rw [source_is_repaired] at hpre; cases hpre) hv U hU
+  · rw [if_neg hlt] at hv
+    exact transpile_den dev N ρ gs out hg hph hv U hU
+
+/-- **the code as found** (no size check, the ring routed on `qc.N`): the coupling clause on the device's
+graph holds when the circuit has the size of the processor, or is smaller and the device is not the
+ring; nothing is said about larger circuits (they are not refused) -/
+theorem transpile_coupled_device_partial (dev : Device) (M N : Nat) (gs out : List Gate)
+    (hsz : N = M ∨ (N < M ∧ dev ≠ .circularSpinChain)) (hg : ∀ g ∈ gs, InClass N g)
+    (h : transpileD tables preDecompose false (deviceSpec dev) (deviceSpec dev) M N gs = .ok out) :
+    ∀ x ∈ out, ∀ p ∈ x.qubits, ∀ q ∈ x.qubits, p ≠ q → HwCoupled dev M p q := by
+  obtain ⟨-, hv⟩ := transpileD_ok h
+  rw [ite_self] at hv
+  have hc := transpile_coupled dev N gs out hg hv
+  rcases hsz with rfl | ⟨_, hd⟩
+  · exact hc
+  · intro x hx p hp q hq hne
+    have := hc x hx p hp q hq hne
+    cases dev
+    · exact this
+    · exact absurd rfl hd
+    · exact this
+    · trivial
+
+/-- counter-example for the code as found: a 3-qubit circuit on a ring of 4 qubits — `ISWAP[0, 2]` is the
+wrap pair of a 3-ring, the router leaves it alone, and qubits 2 and 0 are not coupled on the 4-ring
+(the compiler then drives the coupling `g0`).  Confirmed on the real code. -/
+theorem C13_counterexample_small_circuit_on_ring :
+    InClass 3 ⟨.ISWAP, [0, 2], [], {}⟩ ∧
+    transpileD tables preDecompose false (deviceSpec .circularSpinChain) (deviceSpec .circularSpinChain) 4 3
+      [⟨.ISWAP, [0, 2], [], {}⟩] = .ok [⟨.ISWAP, [2, 0], [], {}⟩] ∧
+    ¬ HwCoupled .circularSpinChain 4 2 0 := by
+  refine ⟨⟨by decide, by decide⟩, by decide +kernel, by unfold HwCoupled; omega⟩
+
+/-- … and a 5-qubit circuit on a 3-qubit processor is let through with a gate on qubit 4 -/
+theorem C13_counterexample_large_circuit :
+    transpileD tables preDecompose false (deviceSpec .cavityQED) (deviceSpec .cavityQED) 3 5
+      [⟨.ISWAP, [0, 4], [], {}⟩] = .ok [⟨.ISWAP, [0, 4], [], {}⟩] := by decide +kernel
 
 /-! ## the code as found violates the coupling clause — concrete witnesses
 
